@@ -10,6 +10,7 @@ file left in the working directory.
 """
 import copy
 import os
+import shutil
 
 from hypothesis import strategies as st
 
@@ -1203,6 +1204,20 @@ def fault_execute(case):
                     if not _compare_snapshot(out, "snapshots/%s-content" % what, "%s (state after hook %r)" % (_group_name(c, n, lab), hk), captured[hk], r2,
                                              limit=2, drop_clock=True):
                         break
+        # later sessions that open the file (append mode through the context manager, as `armi inject-inputs` does; read mode) and
+        # close it again leave the completion mark and the snapshots as they are
+        if not out.violations and not after_close:
+            import h5py
+
+            for mode in ("a", "r"):
+                with Database(fn, mode) as again:
+                    listed = [k.lstrip("/") for k in again.keys()]
+                with h5py.File(fn, "r") as f:
+                    flag2 = bool(f.attrs["successfulCompletion"])
+                    names2 = sorted(k for k in f.keys() if k.startswith("c") and k[1:3].isdigit())
+                out.check(flag2 == (fkey is None), "flag/changed-by-reopening-the-file",
+                          lambda: "after `with Database(fn, %r)` successfulCompletion = %r (the run %s)" % (mode, flag2, "completed" if fkey is None else "aborted at %r" % (fkey,)))
+                out.check(listed == want and names2 == want, "snapshots/changed-by-reopening-the-file", lambda: "after `with Database(fn, %r)`: %r, before %r" % (mode, names2, want))
     finally:
         if dbi._db is not None and dbi._db.isOpen():
             dbi._db.close(False)
@@ -1442,6 +1457,8 @@ def restart_execute(case):
     titles = ["c06r1_%d" % os.getpid(), "c06r2_%d" % os.getpid()]
     files = [t + ".h5" for t in titles]
     bpfile = "c06r_%d-blueprints.yaml" % os.getpid()
+    altdir = "c06r_alt_%d" % os.getpid()
+    alt_same, alt_other = os.path.join(altdir, files[1]), os.path.join(altdir, "another.h5")
     _rm(*files)
     base = {"nCycles": cycles, "burnSteps": burn, "cycleLength": 100.0, "power": 1.0e6, "availabilityFactor": 0.9}
     problems = {"n": 0, "probes": 0}
@@ -1477,15 +1494,17 @@ def restart_execute(case):
     class Auditor(interfaces.Interface):
         name = "auditor"
 
-        def _expect(self, step, what, labelled=False):
+        def _expect(self, step, what, labelled=False, run=None):
             r = self.o.r
-            want = _run_value(run_of(step), *step) + (0.5 if labelled else 0.0)
+            want = _run_value(run or run_of(step), *step) + (0.5 if labelled else 0.0)
             got = (int(r.p.cycle), int(r.p.timeNode), float(r.core.p.keff), sorted({float(b.p.flux) for b in r.core.iterBlocks()}))
             problems["probes"] += 1
             if got != (step[0], step[1], want, [1000.0 * want]):
                 problems["n"] += 1
-                other = _run_value(3 - run_of(step), *step)
+                other = _run_value(3 - (run or run_of(step)), *step)
                 sig = "restart/loadState-returns-the-other-run" if got[2] == other else "restart/loadState-state"
+                if run is not None:
+                    sig = "restart/loadState-ignores-the-named-file" if got[2] == other else "restart/loadState-named-file-state"
                 if labelled:
                     sig = "restart/loadState-ignores-the-label" if got[2] == want - 0.5 else "restart/loadState-labelled-state"
                 out.fail(sig, "restart from %r, at node %r loadState%r (%s): cycle/node/keff/flux = %r, expected %r"
@@ -1511,7 +1530,14 @@ def restart_execute(case):
                     break
                 self.o.loadState(step[0], step[1], label_of(step))
                 self._expect(step, what + ", labelled", labelled=True)
-            if (int(self.o.r.p.cycle), int(self.o.r.p.timeNode)) != self._now:
+            # an explicitly named file: copies of the FIRST run's database kept in another directory, one under the same base name
+            # as this run's own database and one under another name; the state comes from the named file
+            for fname, what in ((alt_same, "named file with the base name of the run's own database"), (alt_other, "named file")):
+                if out.violations:
+                    break
+                self.o.loadState(cycle, node, fileName=fname)
+                self._expect(self._now, what + " " + fname, run=1)
+            if (int(self.o.r.p.cycle), int(self.o.r.p.timeNode), float(self.o.r.core.p.keff)) != (cycle, node, _run_value(2, cycle, node)):
                 self.o.loadState(cycle, node)  # carry on from the current state
 
     def operator(run, extra):
@@ -1543,6 +1569,9 @@ def restart_execute(case):
         dbis.append(dbi)
         with o:
             o.operate()
+        os.makedirs(altdir, exist_ok=True)
+        shutil.copy(files[0], alt_same)
+        shutil.copy(files[0], alt_other)
         cs2, bp, o, dbi = operator(2, {"loadStyle": "fromDB", "reloadDBName": files[0], "startCycle": sc, "startNode": sn})
         dbis.append(dbi)
         with o:
@@ -1598,6 +1627,7 @@ def restart_execute(case):
         _rm(*files)
         if os.path.exists(bpfile):
             os.remove(bpfile)
+        shutil.rmtree(altdir, ignore_errors=True)
     return out
 
 
